@@ -1,10 +1,10 @@
 INIT GInit
 NEXT GNext
 CONSTANTS
- DescPlatStrict = FALSE
+ DescPlatStrict = TRUE
  PlatLookupStrict = FALSE
  ReadFaults = FALSE
- EqualAnnStrict = FALSE
+ EqualAnnStrict = TRUE
  PutFirst = FALSE
  DedupByDigest = FALSE
  DeleteKeepsOne = FALSE
